@@ -66,6 +66,31 @@ Qed.
 Lemma ub_no_fuel g buf : unmarshal_bytes_g g buf <> OutOfFuel.
 Proof. pose proof (ub_spec g buf) as H. intros E. rewrite E in H. exact H. Qed.
 
+(* the guard takes nothing away: wherever the dependency's function answers (a value or an error), the guarded
+   one gives the same answer; the only inputs on which they differ are the ones on which the dependency panics *)
+Lemma ub_guard_conservative buf :
+  unmarshal_bytes buf <> Panic -> unmarshal_bytes_g true buf = unmarshal_bytes buf.
+Proof.
+  unfold unmarshal_bytes, unmarshal_bytes_g. pose proof (uu_spec buf) as S.
+  destruct (unmarshal_uint buf) as [[idx uln]| | |]; try reflexivity. cbn [bind andb].
+  set (ln := to_int64 (Z.of_N uln)). set (hi := to_int64 (ln + idx)).
+  pose proof (to_int64_range (Z.of_N uln)) as Rl. fold ln in Rl.
+  pose proof (to_int64_range (ln + idx)) as Rh. fold hi in Rh.
+  destruct (Z.ltb_spec ln 0) as [Ln|Ln]; cbn [orb].
+  - (* ln < 0: hi < idx in every case *)
+    assert (Hh : hi < idx).
+    { destruct (Z_lt_le_dec (ln + idx) two63) as [Sm|Bg].
+      - unfold hi. rewrite to_int64_small by (unfold two63 in *; lia). lia.
+      - unfold two63 in *. lia. }
+    destruct (Z.ltb_spec (blen buf) hi); [reflexivity|].
+    intros NP. exfalso. apply NP.
+    assert (E : slice buf idx hi = Panic) by (apply slice_panic_iff; lia). rewrite E. reflexivity.
+  - destruct (Z.ltb_spec hi idx) as [Hh|Hh]; [|reflexivity].
+    destruct (Z.ltb_spec (blen buf) hi); [reflexivity|].
+    intros NP. exfalso. apply NP.
+    assert (E : slice buf idx hi = Panic) by (apply slice_panic_iff; lia). rewrite E. reflexivity.
+Qed.
+
 (* the unguarded decoder does not panic when length + header stays below 2^63 *)
 Lemma ub_small_nopanic buf :
   (forall idx uln, unmarshal_uint buf = Ok (idx, uln) -> Z.of_N uln + idx < two63) ->
@@ -100,9 +125,11 @@ Proof.
   unfold two63, two64 in *. lia.
 Qed.
 
-(* the panic witness: ff x9 01 decodes to the length 2^63 *)
+(* the panic witness of the dependency's function: ff x9 01 decodes to the length 2^64-1, -1 as an int; the guarded one rejects it *)
 Definition huge_len : bytes := [xff;xff;xff;xff;xff;xff;xff;xff;xff;x01].
 Lemma huge_len_panics : unmarshal_bytes huge_len = Panic.
+Proof. vm_compute. reflexivity. Qed.
+Lemma huge_len_rejected : unmarshal_bytes_g true huge_len = Err.
 Proof. vm_compute. reflexivity. Qed.
 
 (* ---- round trip of the varint (so that the decoder model is not vacuous: every length is decodable) ---- *)
